@@ -17,6 +17,8 @@ CApply(c, o) ==
     [] o.op = "footer"    -> [c EXCEPT !.f = o.v]
     [] o.op = "assertion" -> [c EXCEPT !.a = o.v]
     [] o.op = "mint"      -> c
+    \* the program goes on with a clone of the object (Paseto is Clone + Copy): nothing changes
+    [] o.op = "clone"     -> c
 
 \* the token a mint call must produce in state c
 MintOrigin(pr, c, o) == Origin(pr, o.k, o.s, c.m, c.f, IF HasAssertion(pr[1]) THEN c.a ELSE "none")
